@@ -173,15 +173,13 @@ def r3(ctx):
         if text(c.func.value) != f.params[0] or not c.args:
             continue
         d = pat.kwarg(c, "depth", 1)
-        lam = c.args[0]
-        if isinstance(lam, ast.Name):
-            lam = pat.single_def(ctx, f, lam)
-        if not (isinstance(lam, ast.Lambda) and len(lam.args.args) == 3 and
+        lam = pat.as_lambda(ctx, f, c.args[0])
+        if not (lam is not None and len(lam[0]) == 3 and
                 d is not None and text(d) == "depth"):
             continue
-        body = lam.body
+        body = lam[1]
         if isinstance(body, ast.Call) and text(body.func) == fn_p and body.args and \
-                text(body.args[0]) == lam.args.args[2].arg and \
+                text(body.args[0]) == lam[0][2] and \
                 [text(a) for a in body.args[1:]] == ["*" + (f.vararg or "?")] and \
                 [k.arg for k in body.keywords] == [None] and \
                 text(body.keywords[0].value) == (f.kwarg or "?"):
@@ -210,14 +208,36 @@ def r4(ctx):
         # elements are handed to build_elem
         LC = LP = None
         for lp2 in f.own_nodes():
-            if isinstance(lp2, ast.For) and any(
-                    isinstance(c, ast.Call) and text(c.func).endswith(".build_elem")
-                    for c in _walk(lp2.body)):
-                z = lp2.iter
-                if isinstance(z, ast.Call) and text(z.func) == "enumerate" and z.args:
-                    z = z.args[0]
-                if isinstance(z, ast.Call) and text(z.func) == "zip" and len(z.args) >= 2:
-                    LC, LP = text(z.args[-2]), text(z.args[-1])
+            if not isinstance(lp2, ast.For):
+                continue
+            be = [c for c in _walk(lp2.body) if isinstance(c, ast.Call)
+                  and text(c.func).endswith(".build_elem")]
+            if not be or len(be[0].args) != 3:
+                continue
+            # the list each build_elem argument is an element of: a zip()
+            # loop variable stands for its zip argument, `L[i]` for L
+            z = lp2.iter
+            tgt = lp2.target
+            if isinstance(z, ast.Call) and text(z.func) == "enumerate" and z.args \
+                    and isinstance(tgt, ast.Tuple) and len(tgt.elts) == 2:
+                z, tgt = z.args[0], tgt.elts[1]
+            via = {}
+            if isinstance(z, ast.Call) and text(z.func) == "zip" and \
+                    isinstance(tgt, ast.Tuple) and len(tgt.elts) == len(z.args):
+                via = {text(t): text(a) for t, a in zip(tgt.elts, z.args)}
+            elif isinstance(z, ast.Name) and isinstance(tgt, ast.Name):
+                via = {tgt.id: z.id}
+
+            def lst(a):
+                if isinstance(a, ast.Name):
+                    if text(a) in via:
+                        return via[text(a)]
+                    d = pat.single_def(ctx, f, a)
+                    return lst(d) if d is not None else None
+                if isinstance(a, ast.Subscript) and isinstance(a.value, ast.Name):
+                    return text(a.value)
+                return None
+            LC, LP = lst(be[0].args[1]), lst(be[0].args[2])
         ctx.require(LC and LP, "C08.R4: per-partition lists of %s not found" % key)
         for c in _walk(loops[0].body):
             if isinstance(c, ast.Call) and isinstance(c.func, ast.Attribute) and \
@@ -255,7 +275,8 @@ def r4(ctx):
             if isinstance(g_.target, ast.Name) and text(g_.iter) == cp and not g_.ifs \
                     and isinstance(lc_.elt, ast.BinOp) and isinstance(lc_.elt.op, ast.Sub) \
                     and text(lc_.elt.left) == g_.target.id and \
-                    text(lc_.elt.right).replace(" ", "") == start.replace(" ", ""):
+                    pat.inline(ctx, f, lc_.elt.right).replace(" ", "") == \
+                    start.replace(" ", ""):
                 okrel = True
         if okrel:
             ctx.ok("C08.R4", f, rel[0], "relative coordinates = coordinate - "
@@ -277,8 +298,12 @@ def r4(ctx):
     ctx.require(loops, "C08.R4: _splitFiber loop not found")
     names = [text(e) for e in loops[0].target.elts] if isinstance(
         loops[0].target, ast.Tuple) else []
-    ctors = [c for c in _walk(loops[0].body) if isinstance(c, ast.Call)
-             and text(c.func) == "Fiber"]
+    ctors = []
+    for c in _walk(loops[0].body):
+        if isinstance(c, ast.Call):
+            c = pat.beta(ctx, f, c) or c        # a local one-line maker
+            if text(c.func) == "Fiber":
+                ctors.append(c)
     ok = len(names) == 4 and len(ctors) == 1
     if ok:
         part, coords, payloads, ar = names
@@ -346,7 +371,7 @@ def r5_position_space(ctx):
         ctx.require(inits, "C08.R5: splitter class of Fiber.%s not found" % name)
         m = inits[0]
         fp = m.params[1] if len(m.params) > 1 else None
-        loops = [x for x in m.own_nodes() if isinstance(x, ast.For)
+        loops = [x for x in m.own_nodes() if isinstance(x, (ast.For, ast.comprehension))
                  and fp and any(isinstance(y, ast.Name) and y.id == fp
                                 for y in ast.walk(x.iter))]
         ctx.require(loops, "C08.R5: boundary loop of Fiber.%s not found" % name)
@@ -356,6 +381,8 @@ def r5_position_space(ctx):
             if kind is None:
                 raise AnalysisError("C08.R5: cannot classify the stream `%s` "
                                     "Fiber.%s counts" % (text(lp.iter), name))
+            if isinstance(lp, ast.comprehension):
+                lp = enclosing_stmt(lp)
             if kind == dkind:
                 ctx.ok("C08.R5", m, lp, "boundaries counted over the same %s "
                        "stream the partitioner distributes" % kind,
@@ -389,7 +416,7 @@ def _role(ctx, f, e, env, depth=0):
             e.func.attr in ("sub_pre_halo", "add_post_halo") and len(e.args) == 1:
         return _role(ctx, f, e.args[0], env, depth + 1)
     if isinstance(e, ast.BinOp) and isinstance(e.op, (ast.Add, ast.Sub)):
-        rt = text(e.right).replace(" ", "")
+        rt = pat.inline(ctx, f, e.right).replace(" ", "")
         if rt in ("self.pre_halo", "self.post_halo"):
             return _role(ctx, f, e.left, env, depth + 1)        # a halo shift
         if rt == "self.step" and isinstance(e.op, ast.Add) and \
@@ -408,9 +435,9 @@ def _role(ctx, f, e, env, depth=0):
             isinstance(e.value.func, ast.Attribute) and e.value.func.attr == "getActive":
         return {"0": "S", "1": "E"}.get(text(e.slice))
     if isinstance(e, ast.BinOp) and isinstance(e.op, ast.Mult) and \
-            text(e.right).replace(" ", "") == "self.step" and \
+            pat.inline(ctx, f, e.right).replace(" ", "") == "self.step" and \
             isinstance(e.left, ast.BinOp) and isinstance(e.left.op, ast.FloorDiv) and \
-            text(e.left.right).replace(" ", "") == "self.step":
+            pat.inline(ctx, f, e.left.right).replace(" ", "") == "self.step":
         return "S"                      # floor to a multiple of the step
     return None
 
@@ -504,7 +531,7 @@ def r7_clip(ctx):
                 for e, fn, idx in ((ar.elts[0], "max", "0"), (ar.elts[1], "min", "1")):
                     v = pat.single_def(ctx, f, e) if isinstance(e, ast.Name) else e
                     if isinstance(v, ast.Call) and text(v.func) == fn and len(v.args) == 2:
-                        srcs = [text(a).replace(" ", "") for a in v.args]
+                        srcs = [pat.inline_x(ctx, f, a).replace(" ", "") for a in v.args]
                         parts.append("self.fiber.getActive()[%s]" % idx in srcs)
                         if not parts[-1]:
                             why = "`%s` does not clip to self.fiber.getActive()[%s]" % (text(v), idx)
